@@ -1,0 +1,103 @@
+// Copyright 2026 Anapaya Systems
+//
+// Licensed under the Apache License, Version 2.0 (the "License");
+// you may not use this file except in compliance with the License.
+// You may obtain a copy of the License at
+//
+//   http://www.apache.org/licenses/LICENSE-2.0
+//
+// Unless required by applicable law or agreed to in writing, software
+// distributed under the License is distributed on an "AS IS" BASIS,
+// WITHOUT WARRANTIES OR CONDITIONS OF ANY KIND, either express or implied.
+// See the License for the specific language governing permissions and
+// limitations under the License.
+//! Simulation seam of the endhost sockets (cargo feature `verif-hooks`).
+//!
+//! The sockets are built over the crate-private `UnderlaySocket` trait. This module lets a
+//! simulator provide the underlay and obtain the real [`PathUnawareUdpScionSocket`] with the
+//! SCMP handlers the stack installs.
+
+use std::{future::Future, io, pin::Pin, sync::Arc};
+
+use async_trait::async_trait;
+use sciparse::{address::ip_socket_addr::ScionSocketIpAddr, packet::view::ScionRawPacketView};
+
+use crate::{
+    internal::Subscribers,
+    stack::{
+        BoundUnderlaySocket, PathUnawareUdpScionSocket, ScionSocketReceiveError,
+        ScionSocketSendError, UnderlaySocket,
+        scmp_handler::{DefaultEchoHandler, ScmpErrorReceiver, ScmpHandler, error::ScmpErrorHandler},
+    },
+    sciparse::core::view::View,
+};
+
+/// A simulated underlay: datagram-wise, non-blocking, with readiness notifications.
+pub trait VerifUnderlay: Send + Sync + 'static {
+    /// Tries to send one encoded SCION packet. `Err(WouldBlock)` means not ready.
+    fn try_send(&self, packet: &[u8]) -> Result<(), io::ErrorKind>;
+    /// Tries to receive one encoded SCION packet into `buf`. `Err(WouldBlock)` means not ready.
+    fn try_recv(&self, buf: &mut [u8]) -> Result<usize, io::ErrorKind>;
+    /// Resolves once the underlay may be ready to receive.
+    fn readable(&self) -> Pin<Box<dyn Future<Output = ()> + Send + '_>>;
+    /// Resolves once the underlay may be ready to send.
+    fn writeable(&self) -> Pin<Box<dyn Future<Output = ()> + Send + '_>>;
+}
+
+struct Adapter(Arc<dyn VerifUnderlay>);
+
+#[async_trait]
+impl UnderlaySocket for Adapter {
+    fn try_send(&self, packet: &ScionRawPacketView) -> Result<(), ScionSocketSendError> {
+        self.0.try_send(packet.as_slice()).map_err(|kind| {
+            match kind {
+                io::ErrorKind::NotConnected | io::ErrorKind::BrokenPipe => {
+                    ScionSocketSendError::Closed
+                }
+                kind => ScionSocketSendError::IoError(io::Error::from(kind)),
+            }
+        })
+    }
+
+    async fn writeable(&self) {
+        self.0.writeable().await;
+    }
+
+    fn try_recv(&self, buf: &mut [u8]) -> Result<usize, ScionSocketReceiveError> {
+        self.0
+            .try_recv(buf)
+            .map_err(|kind| ScionSocketReceiveError::IoError(io::Error::from(kind)))
+    }
+
+    async fn readable(&self) {
+        self.0.readable().await;
+    }
+}
+
+/// Builds the real path-unaware UDP socket over a simulated underlay, with the SCMP error handler
+/// the stack installs for UDP sockets and, optionally, the default echo handler.
+///
+/// The receivers are held weakly by the handler: the caller keeps them alive.
+pub fn path_unaware_udp_socket(
+    underlay: Arc<dyn VerifUnderlay>,
+    local_addr: ScionSocketIpAddr,
+    scmp_error_receivers: &[Arc<dyn ScmpErrorReceiver>],
+    with_echo_handler: bool,
+) -> PathUnawareUdpScionSocket {
+    let subscribers: Subscribers<dyn ScmpErrorReceiver> = Subscribers::new();
+    for receiver in scmp_error_receivers {
+        subscribers.register(receiver.clone());
+    }
+    let mut handlers: Vec<Box<dyn ScmpHandler>> = vec![Box::new(ScmpErrorHandler::new(subscribers))];
+    if with_echo_handler {
+        handlers.push(Box::new(DefaultEchoHandler::new()));
+    }
+    PathUnawareUdpScionSocket::new(
+        BoundUnderlaySocket {
+            socket: Box::new(Adapter(underlay)),
+            local_addr,
+            snap_data_plane: None,
+        },
+        handlers,
+    )
+}
